@@ -20,7 +20,7 @@ BUDGET = {'quick': {'examples': 480, 'wall': 200}, 'thorough': {'examples': 2000
 ASSUMPTIONS = ['pattern integral by quadrature of the program\'s own dBi table (32 x 48 nodes, doubled near the margin)',
                'load dissipation from reference load formulas (pv/ref/loads.py)']
 LABEL_FLOORS = {'power-factor>=0.1': 0.3, 'env-ideal': 0.2, 'env-real': 0.15, 'multi-source': 0.3, 'loaded': 0.3, 'curve': 0.08,
-                'absorbing-source': 0.05, 'grounded-end2': 0.03, 'load-on-gnd': 0.005}
+                'absorbing-source': 0.05, 'grounded-end2': 0.03, 'load-on-gnd': 0.005, 'power-requested': 0.15}
 
 
 @st.composite
@@ -51,6 +51,7 @@ def case_strategy(draw, big=False):
             rr = max(o['obj']['r'] for o in objs) if tg is None else [o['obj']['r'] for o in objs if o['tag'] == tg][0]
             lds.append({'kind': 'ins', 'radius': gen.r6(rr * draw(st.floats(1.2, 3))), 'eps': gen.r6(draw(st.floats(1.0, 6.0))), 'tag': tg})
     case['loads'] = lds
+    case['ffpwr'] = gen.r6(draw(gen.logf(1e-3, 1e5))) if draw(st.integers(0, 2)) == 0 else None
     return case
 
 
@@ -58,7 +59,7 @@ def strategy(tier):
     return case_strategy(big=tier == 'thorough')
 
 
-def radiated_fraction(m, ground, nth, nph):
+def radiated_fraction(m, ground, nth, nph, pwr=None):
     """(1/4pi) * integral of G over the sphere / upper hemisphere"""
     x, w = np.polynomial.legendre.leggauss(nth)
     if ground:
@@ -68,7 +69,11 @@ def radiated_fraction(m, ground, nth, nph):
     tot = 0.0
     for xi, wi in zip(x, w):
         th = math.degrees(math.acos(xi))
-        m.compute_far_field(A(th, 0, 1), A(0.0, 360.0 / nph, nph))
+        if pwr:
+            # the gain in dBi does not depend on a power level requested for the table in V/m
+            m.compute_far_field(A(th, 0, 1), A(0.0, 360.0 / nph, nph), pwr=pwr, dist=1000.0)
+        else:
+            m.compute_far_field(A(th, 0, 1), A(0.0, 360.0 / nph, nph))
         g = np.array(m.far_field.gain)[0, :, 2]
         lin = np.where(g > -900, 10 ** (g / 10), 0.0)
         tot += wi * lin.mean() * 2 * math.pi
@@ -144,11 +149,14 @@ def check(case):
     if any(e == 1 for (_, e) in topo.grounded):
         labels.append('grounded-end2')
     margin = 0.015 * app
-    frac = radiated_fraction(m, ground, 32, 48)
+    ffp = case.get('ffpwr')
+    if ffp:
+        labels.append('power-requested')
+    frac = radiated_fraction(m, ground, 32, 48, ffp)
     prad = pin * frac
     imb = pin - pl - prad
     if abs(abs(imb) - margin) < 0.5 * margin or abs(imb) > margin:
-        frac = radiated_fraction(m, ground, 64, 96)
+        frac = radiated_fraction(m, ground, 64, 96, ffp)
         prad = pin * frac
         imb = pin - pl - prad
     fails = []
